@@ -14,7 +14,7 @@ package mr_test
 //     is blocked on a channel / lock while the call has not returned is a proven hang);
 //   - after the generator function has returned (and the "late" user functions were released) no
 //     goroutine started by the call is left (survivors are proven blocked by the same kind of
-//     snapshot, or still there after 2 s; their stacks are attached).
+//     snapshot; their stacks are attached).
 // Nothing in a verdict depends on timing: time-outs without a proof of blockage are Infra.
 
 import (
@@ -635,7 +635,7 @@ func (j *c07Judge) runOnce(sc *c07Scenario, seed int64) *c07Fail {
 	}
 
 	// ---- quiescence: generator function returned, nothing of the call left
-	deadline := time.Now().Add(2 * time.Second)
+	deadline := time.Now().Add(30 * time.Second)
 	select {
 	case <-feederDone:
 	case <-time.After(2 * time.Second): // nobody reads the source any more: not promised for MapReduceChan
@@ -647,7 +647,6 @@ func (j *c07Judge) runOnce(sc *c07Scenario, seed int64) *c07Fail {
 		runtime.Gosched()
 	}
 	var survivors []c07G
-	proven := false
 	for i := 0; ; i++ {
 		if runtime.NumGoroutine() <= base && (!hasGen || atomic.LoadInt32(&r.genDone) == 1) {
 			break
@@ -664,13 +663,14 @@ func (j *c07Judge) runOnce(sc *c07Scenario, seed int64) *c07Fail {
 		if len(gs) == 0 {
 			break
 		}
-		if atomic.LoadInt32(&ctlDone) == 1 && allBlocked(gs) {
-			survivors, proven = gs, true
+		if allBlocked(gs) {
+			survivors = gs
 			break
 		}
 		if time.Now().After(deadline) {
-			survivors = gs
-			break
+			// something of the call is still runnable: not a leak that can be proven, so not a verdict
+			j.adopt(gs)
+			return &c07Fail{infra: true, msg: fmt.Sprintf("%s: goroutines of the call still running 30s after the call returned: %s", sc, c07Describe(gs))}
 		}
 		time.Sleep(time.Millisecond)
 	}
@@ -694,9 +694,6 @@ func (j *c07Judge) runOnce(sc *c07Scenario, seed int64) *c07Fail {
 				}
 			}
 			how := "proven blocked for ever"
-			if !proven {
-				how = "still there 2s after the generator function returned"
-			}
 			fail = &c07Fail{key: "C07:leak:" + class,
 				msg: fmt.Sprintf("%s: call returned %s(%s); %d goroutine(s) of the call left (%s): %s\n%s",
 					sc, out.Kind, out.Val, len(survivors), how, c07Describe(survivors), c07Full(survivors))}
